@@ -138,11 +138,13 @@ func probePools() poolProbe {
 		}
 	}
 	fm := func(e *p.ZogIssue, c p.Ctx) {}
-	errs := &p.ErrsList{}
-	ec := &p.ExecCtx{Fmter: fm, Errors: errs}
-	pb := &p.PathBuilder{""}
+	// built through the library's own constructors, so that this probe does not depend on how the pooled
+	// types are laid out
+	errs := p.NewErrsList()
+	ec := p.NewExecCtx(errs, fm)
+	pb := p.NewPathBuilder()
 	x := 0
-	sc := &p.SchemaCtx{ExecCtx: ec, Path: pb, DType: "string", Data: "d", ValPtr: &x}
+	sc := ec.NewSchemaCtx("d", &x, pb, "string")
 	test := &p.Test{IssueCode: "tc", Params: map[string]any{"k": 1}}
 
 	a, n := probeCtor(p.FreeIssue, p.NewZogIssue)
@@ -165,7 +167,9 @@ func probePools() poolProbe {
 	// PathBuilder: a recycled builder that still holds segments must come back empty and usable
 	pbOK := false
 	for attempt := 0; attempt < 200 && !pbOK; attempt++ {
-		d := &p.PathBuilder{"", "x", "[3]"}
+		d := p.NewPathBuilder()
+		s1, s2 := "x", "[3]"
+		d.Push(&s1).Push(&s2)
 		d.Free()
 		got := p.NewPathBuilder()
 		if got != d {
